@@ -66,7 +66,16 @@ impl<'a> Parser<'a> {
     /// Parse the regex and return an expression (AST) and a bit set with the indexes of groups
     /// that are referenced by backrefs.
     pub(crate) fn parse(re: &str) -> Result<ExprTree> {
+        Self::parse_with_options(re, false)
+    }
+
+    /// Like `parse`, but with case-insensitive matching switched on from the start, as if the
+    /// pattern began with `(?i)`.
+    pub(crate) fn parse_with_options(re: &str, case_insensitive: bool) -> Result<ExprTree> {
         let mut p = Parser::new(re);
+        if case_insensitive {
+            p.flags |= FLAG_CASEI;
+        }
         let (ix, expr) = p.parse_re(0, 0)?;
         if ix < re.len() {
             return Err(Error::ParseError(
